@@ -444,6 +444,12 @@ class _Functional(ast.NodeTransformer):
             if r_ is not None and not isinstance(r_, ast.Call):
                 return ast.copy_location(r_, node)
         d = ast.unparse(node.func)
+        # zip(itertools.count(k), XS)  ->  enumerate(XS, start=k)   (the same pairs)
+        if d == "zip" and len(node.args) == 2 and not node.keywords and isinstance(node.args[0], ast.Call) \
+                and ast.unparse(node.args[0].func) in ("itertools.count", "count") and len(node.args[0].args) <= 1 and not node.args[0].keywords:
+            start = node.args[0].args[0] if node.args[0].args else ast.Constant(value=0)
+            return ast.copy_location(ast.Call(func=ast.Name(id="enumerate", ctx=ast.Load()), args=[node.args[1]],
+                                              keywords=[ast.keyword(arg="start", value=start)]), node)
         if d in ("map", "filter", "itertools.filterfalse", "filterfalse") and len(node.args) == 2 and not node.keywords:
             _Functional.n += 1
             v = "_fx%d" % _Functional.n
